@@ -158,6 +158,9 @@ class QueueDriver(InstructionGenerator):
         # now and then the operator clears the plugs: everybody charging is told to leave and the waiting vehicles are told to
         # plug in, all in one instruction phase (several plugs fall free before the queue is next served)
         shake = rng.random() < 0.10
+        # now and then everybody who stands idle away from the station sets off at once: vehicles that start from the same
+        # place arrive in the same step and join the queue with the same time stamp
+        rush = rng.random() < (0.5 if int(sim.sim_time) == 0 else 0.06)
         for v in sim.get_vehicles():
             act = type(v.vehicle_state).__name__
             r = rng.random()
@@ -202,8 +205,8 @@ class QueueDriver(InstructionGenerator):
                 if v.geoid == st.geoid:
                     if r < 0.5 and bid:
                         out.append(DispatchBaseInstruction(v.id, bid))     # leave, to come back and queue later
-                elif r < 0.35:
-                    out.append(DispatchStationInstruction(v.id, sid, plug))
+                elif r < 0.35 or (rush and act == "Idle"):
+                    out.append(DispatchStationInstruction(v.id, sid, plug if not rush else usable[0]))
                 elif r < 0.6 and len(sim.stations) > 1:
                     o = sorted(sim.stations.keys())[1]
                     oplugs = sorted(sim.stations[o].state.keys())
